@@ -106,13 +106,16 @@ func textTok(v goja.Value) string {
 	return strings.ReplaceAll(s, " ", "_")
 }
 
-// strArg decodes "s:<text>": '~' is a space, \uXXXX a UTF-16 code unit (4 hex digits).
-func strArg(s string) (string, bool) {
+// strArg decodes "s:<text>": '~' is a space, \uXXXX a UTF-16 code unit (4 hex digits).  Pure ASCII text becomes a
+// Go string (goja's ASCII / imported representation); anything else is built from its UTF-16 code units, so that
+// lone surrogates reach the runtime unchanged.
+func strArg(vm *goja.Runtime, s string) (goja.Value, string, bool) {
 	if !strings.HasPrefix(s, "s:") {
-		return "", false
+		return nil, "", false
 	}
 	s = s[2:]
 	var units []uint16
+	ascii := true
 	for i := 0; i < len(s); i++ {
 		c := s[i]
 		switch {
@@ -121,15 +124,22 @@ func strArg(s string) (string, bool) {
 		case c == '\\' && i+5 < len(s) && s[i+1] == 'u':
 			v, err := strconv.ParseUint(s[i+2:i+6], 16, 16)
 			if err != nil {
-				return "", false
+				return nil, "", false
 			}
 			units = append(units, uint16(v))
+			if v >= 0x80 {
+				ascii = false
+			}
 			i += 5
 		default:
 			units = append(units, uint16(c))
 		}
 	}
-	return string(utf16.Decode(units)), true
+	str := string(utf16.Decode(units))
+	if ascii {
+		return vm.ToValue(str), str, true
+	}
+	return goja.StringFromUTF16(units), str, true
 }
 
 func (e *env) callText(f goja.Callable, args ...goja.Value) string {
@@ -201,15 +211,15 @@ func (e *env) handle(line string) string {
 		}
 		return string(ftoa.FToStr(x, ftoa.FToStrMode(mode), p, nil))
 	case "num", "pfloat", "lit":
-		s, ok := strArg(w[1])
+		sv, s, ok := strArg(vm, w[1])
 		if !ok {
 			return "ERR:args"
 		}
 		switch w[0] {
 		case "num":
-			return e.callBits(e.fNumber, vm.ToValue(s))
+			return e.callBits(e.fNumber, sv)
 		case "pfloat":
-			return e.callBits(e.fParseFloat, vm.ToValue(s))
+			return e.callBits(e.fParseFloat, sv)
 		default:
 			v, err := vm.RunString("(" + s + ")")
 			if err != nil {
@@ -222,11 +232,11 @@ func (e *env) handle(line string) string {
 			return "ERR:args"
 		}
 		r, err := strconv.Atoi(w[1])
-		s, ok := strArg(w[2])
+		sv, _, ok := strArg(vm, w[2])
 		if err != nil || !ok {
 			return "ERR:args"
 		}
-		return e.callBits(e.fParseInt, vm.ToValue(s), vm.ToValue(r))
+		return e.callBits(e.fParseInt, sv, vm.ToValue(r))
 	}
 	return "ERR:unknown-op"
 }
